@@ -500,6 +500,15 @@ class Engine(object):
                 args = [self.ev(a, st, pc) for a in e.args]
                 kw = {k.arg: self.ev(k.value, st, pc) for k in e.keywords}
                 return self.adopt_single(self.method_paths(rec, mname, args, kw, st, pc, e), st, pc, rec.cls + '.' + mname)
+        if isinstance(e.func, ast.Attribute) and e.func.attr in ('append', 'extend') and isinstance(e.func.value, ast.Name) \
+                and type(st.vars.get(e.func.value.id)) is list:
+            lst = st.vars[e.func.value.id]
+            arg = self.ev(e.args[0], st, pc)
+            if e.func.attr == 'append':
+                lst.append(arg)
+            else:
+                lst.extend(self._elems(arg, st, pc))
+            return None
         if isinstance(e.func, ast.Attribute) and e.func.attr in ('sort', 'copy', 'tolist'):
             base = self.ev(e.func.value, st, pc)
             if isinstance(base, (ArrV, LazyArr)):
